@@ -89,8 +89,9 @@ def count_rule(facts, rep, rule="C09-COUNT", only=None):
                 v = strip_casts(a[3][0][1])
                 if not ((v[0] == "call" and PURE_QUERY.search(v[1]) and mentions_buf(v, buf)) or (v[0] == "len" and mentions_buf(v, buf))):
                     good = False
+            # (a query such as buf.len() / is_empty() consumes nothing: the whole slice must reach a call that takes the bytes)
             whole = any(mentions_buf(norm(ex.operand(a, (bi, None))), buf) and norm(ex.operand(a, (bi, None)))[0] == "arg"
-                        for bi, t in f.calls() for a in t["args"])
+                        for bi, t in f.calls() if not PURE_QUERY.search(t.get("callee") or "") and not re.search(r"Index(<[^>]*>)?::index$|::get$|::split_at$|::chunks$|::iter$|::first$|::last$", t.get("callee") or "") for a in t["args"])
             good = good and whole
             okall &= good
             rep.check(good, rule, key0 + ":buffering", w0,
@@ -107,7 +108,8 @@ def count_rule(facts, rep, rule="C09-COUNT", only=None):
                 if s2["k"] != "assign" or not s2["place"]["p"] or f.blocks[b2].get("cleanup"):
                     continue
                 pp = s2["place"]["p"]
-                if s2["place"]["l"] == 1 and pp[0]["k"] == "deref" and any(q["k"] == "field" for q in pp):
+                scalar = re.match(r"^(u8|u16|u32|u64|u128|usize|i8|i16|i32|i64|isize|bool)$", str(s2["place"].get("ty") or pp[-1].get("ty") or "")) is not None
+                if s2["place"]["l"] == 1 and pp[0]["k"] == "deref" and any(q["k"] == "field" for q in pp) and scalar:     # (counters and flags; a lazily built inner reader is not accounting)
                     if not any(f.dominates(b_, b2) for b_ in ib):
                         early.append(".".join(str(q.get("n")) for q in pp if q["k"] == "field"))
             okall &= bool(rep.check(not early, rule, key0 + ":state-moves-after-inner-read", w0, "no field of the adapter is assigned before the wrapped read returned",
